@@ -1567,44 +1567,44 @@ func ruleC13NoRecover(r *Run) {
 // noByteCond: the branch condition (cond, truth) says that the string `subject` does not contain the byte ch
 // (strings.IndexByte(s, ch) < 0 and its spellings).
 func noByteCond(ch byte, subject func(ssa.Value) bool) func(cond ssa.Value, truth bool) bool {
-		return func(cond ssa.Value, truth bool) bool {
-			if b, okb := cond.(*ssa.BinOp); okb {
-				c, isCall := b.X.(*ssa.Call)
-				if !isCall || (calleeName(c) != "strings.IndexByte" && calleeName(c) != "strings.IndexRune" && calleeName(c) != "strings.Index") || !subject(c.Call.Args[0]) {
+	return func(cond ssa.Value, truth bool) bool {
+		if b, okb := cond.(*ssa.BinOp); okb {
+			c, isCall := b.X.(*ssa.Call)
+			if !isCall || (calleeName(c) != "strings.IndexByte" && calleeName(c) != "strings.IndexRune" && calleeName(c) != "strings.Index") || !subject(c.Call.Args[0]) {
+				return false
+			}
+			if k, okk := constInt(c.Call.Args[1]); okk {
+				if k != int64(ch) {
 					return false
 				}
-				if k, okk := constInt(c.Call.Args[1]); okk {
-					if k != int64(ch) {
-						return false
-					}
-				} else if sv, oks := constString(c.Call.Args[1]); !oks || sv != string(ch) {
-					return false
-				}
-				k, okk := constInt(b.Y)
-				if !okk {
-					return false
-				}
-				op := b.Op
-				if !truth {
-					op = negOp(op)
-				}
-				return (op == token.LSS && k == 0) || (op == token.EQL && k == -1) || (op == token.LEQ && k == -1)
+			} else if sv, oks := constString(c.Call.Args[1]); !oks || sv != string(ch) {
+				return false
 			}
-			if c, isCall := cond.(*ssa.Call); isCall && !truth && calleeName(c) == "strings.ContainsAny" && subject(c.Call.Args[0]) {
-				if sv, oks := constString(c.Call.Args[1]); oks && strings.IndexByte(sv, ch) >= 0 {
-					return true
-				}
+			k, okk := constInt(b.Y)
+			if !okk {
+				return false
 			}
-			if c, isCall := cond.(*ssa.Call); isCall && !truth && (calleeName(c) == "strings.Contains" || calleeName(c) == "strings.ContainsRune") && subject(c.Call.Args[0]) {
-				if sv, oks := constString(c.Call.Args[1]); oks && sv == string(ch) {
-					return true
-				}
-				if k, okk := constInt(c.Call.Args[1]); okk && k == int64(ch) {
-					return true
-				}
+			op := b.Op
+			if !truth {
+				op = negOp(op)
 			}
-			return false
+			return (op == token.LSS && k == 0) || (op == token.EQL && k == -1) || (op == token.LEQ && k == -1)
 		}
+		if c, isCall := cond.(*ssa.Call); isCall && !truth && calleeName(c) == "strings.ContainsAny" && subject(c.Call.Args[0]) {
+			if sv, oks := constString(c.Call.Args[1]); oks && strings.IndexByte(sv, ch) >= 0 {
+				return true
+			}
+		}
+		if c, isCall := cond.(*ssa.Call); isCall && !truth && (calleeName(c) == "strings.Contains" || calleeName(c) == "strings.ContainsRune") && subject(c.Call.Args[0]) {
+			if sv, oks := constString(c.Call.Args[1]); oks && sv == string(ch) {
+				return true
+			}
+			if k, okk := constInt(c.Call.Args[1]); okk && k == int64(ch) {
+				return true
+			}
+		}
+		return false
+	}
 }
 
 // C02-STATIC: the static tier of match answers with the stored route and no parameters. That is right only for
